@@ -275,7 +275,13 @@ def body_plan(doc: dict, man: dict, man_ep: dict, op: dict, tok: docs.Tok, rng: 
             else:
                 v = docs.instance(ps, comps, tok, "rand", 1)
                 if v is None:
+                    v = docs.instance(ps, comps, tok, "max", 1)  # null has no defined multipart form
+                if v is None:
+                    if req:
+                        return None
                     continue
+                if mprops[name]["kind"] == "AnyProperty" and not isinstance(v, (str, int, float)):
+                    v = tok.string()  # an untyped part has a defined wire form only for scalars
                 kwargs[mprops[name]["python_name"]] = to_desc(mprops[name], v)
                 parts[name] = {"json": v}
         x["parts"] = parts
